@@ -7,7 +7,9 @@ EXTENDS SearchSplit, Json, IOUtils, TLC
 Tr == ndJsonDeserialize(IOEnv.TRACE_FILE)
 VARIABLE l
 Check(r) ==
-  IF r.kind = "splitby"
+  IF r.kind = "relbase"
+    THEN (IF r.chosen = RelativeBaseIndex(r.rel) THEN TRUE ELSE PrintT(<<"REJECT", r.tid, "abs", "relative-base", RelativeBaseIndex(r.rel)>>))
+  ELSE IF r.kind = "splitby"
     THEN (IF r.aligned /\ r.cands = SplitBy(r.n) THEN TRUE ELSE PrintT(<<"REJECT", r.tid, "abs", "split-by", SplitBy(r.n)>>))
     ELSE (IF Len(r.cands) > 0 /\ r.chosen = Best(r.cands) THEN TRUE
           ELSE PrintT(<<"REJECT", r.tid, "abs", "best-split", IF Len(r.cands) > 0 THEN Best(r.cands) ELSE 0>>))
